@@ -7,4 +7,5 @@ INVARIANT ForwardWellFormed
 INVARIANT ForwardGivesTarget
 INVARIANT BackwardGivesShape
 INVARIANT SparseFusedAxes
+INVARIANT BackwardWithInsert
 CHECK_DEADLOCK FALSE
